@@ -309,10 +309,13 @@ def _regions(base, this, other, reprocess):
     return [[r[0]] + [0 if x is None else int(x) for x in r[1:]] for r in rs]
 
 
-def merge_case(cmd, base, this, other, tv=True, sid=True, reprocess=False, show_base=False):
+def merge_case(cmd, base, this, other, tv=True, sid=True, reprocess=False, show_base=False, rename=None, then=None):
+    """rename: OTHER also renames/moves the file to that path ("g", "d/f"); then: a follow-up command on the merged
+    tree ("revert" = whole tree, "revert_f" = the file), always with backups.  Both make the case a sequence that
+    only the oracle judges (the model covers the single merge of one un-renamed path)."""
     inp = {"kind": "merge", "cmd": cmd, "base": None if base is None else list(base), "this": list(this),
            "other": None if other is None else list(other), "tv": bool(tv), "sid": bool(sid),
-           "reprocess": bool(reprocess), "show_base": bool(show_base)}
+           "reprocess": bool(reprocess), "show_base": bool(show_base), "rename": rename, "then": then}
     inp["regions"] = _regions(base or [], this, other or [], reprocess)
     return inp
 
@@ -332,10 +335,48 @@ def _gen_merge(rng, cmd):
     tv = rng.random() < 0.8
     sid = rng.random() < 0.5
     rp, sb = (rng.random() < 0.3, rng.random() < 0.3) if cmd == "merge" else (False, False)
-    return merge_case(cmd, base, this, other, tv, sid, rp, sb)
+    rename = then = None
+    if rng.random() < 0.45:
+        # sequences: the incoming change renames / moves the file (mostly without touching its text), and / or a
+        # revert follows the merge-like command
+        if base is not None and other is not None and tv and rng.random() < 0.75:
+            rename = rng.choice(["g", "d/f", "f.~1~"])
+            if rng.random() < 0.7:
+                other = list(base)
+        then = rng.choice([None, "revert", "revert", "revert_f"])
+        if rename is None and then is None:
+            then = "revert"
+    return merge_case(cmd, base, this, other, tv, sid, rp, sb, rename, then)
 
 
 CMDS = ["merge", "pull", "update", "switch"]
+
+
+def store_case(steps):
+    return {"kind": "store", "steps": [list(st) for st in steps]}
+
+
+def _gen_store(rng):
+    steps = []
+    for _ in range(rng.randint(3, 8)):
+        if rng.random() < 0.4:
+            # the added file "n" is created once per sequence (a second add while the first is stored away would be a
+            # second file id at the same path: conflict resolution, not modelled)
+            name = rng.choice(["f", "f", "n"])
+            if name == "n" and any(st[0] == "edit" and st[1] == "n" for st in steps):
+                name = "f"
+            steps.append(["edit", name, rng.choice(CONTENTS[:2] + CONTENTS[3:])])
+        else:
+            steps.append(["switch", rng.random() < 0.5, rng.random() < 0.7])
+    if not any(st[0] == "edit" for st in steps):
+        steps.insert(0, ["edit", "f", b"one\n"])
+    if rng.random() < 0.5:
+        # the refusal shape: a branch that already holds stored changes is left again with --store
+        b = rng.random() < 0.5
+        pre = [["edit", "f", rng.choice(CONTENTS[:2])], ["switch", b, True], ["switch", not b, False],
+               ["edit", "f", rng.choice(CONTENTS[3:])], ["switch", rng.random() < 0.5, True]]
+        steps = pre + [st for st in steps if not (st[0] == "edit" and st[1] == "n")][:3]
+    return store_case(steps)
 
 
 def corpus():
@@ -401,6 +442,21 @@ def corpus():
         out.append(merge_case(cmd, [b"a\n", b"b\n"], [b"A\n", b"b\n"], None, tv=False))
         out.append(merge_case(cmd, [b"a\n"], [b"A\n"], [b"B\n"]))
     out.append(merge_case("merge", [b"a\n"], [b"A\n"], [b"B\n"], reprocess=True, show_base=True))
+    # sequences: the incoming change only renames / moves the locally edited file, then revert
+    B3 = [b"line 1\n", b"line 2\n", b"line 3\n"]
+    T3 = [b"line 1\n", b"line 2 edited\n", b"line 3\n"]
+    for cmd in CMDS:
+        out.append(merge_case(cmd, B3, T3, B3, rename="g", then="revert"))
+        out.append(merge_case(cmd, B3, T3, B3, rename="d/f", then="revert_f"))
+    out.append(merge_case("pull", B3, T3, [b"line 1\n", b"line 2\n", b"line 3 theirs\n"], rename="g", then="revert"))
+    out.append(merge_case("update", B3, T3, [b"line 1\n", b"line 2\n", b"line 3 theirs\n"], then="revert"))
+    # switch --store sequences: round trip; refused because the branch already holds stored changes
+    out.append(store_case([["edit", "f", b"one\n"], ["switch", True, True], ["switch", False, True]]))
+    out.append(store_case([["edit", "f", b"one\n"], ["switch", True, True], ["switch", False, False],
+                           ["edit", "f", b"two\n"], ["edit", "n", b"new file\n"], ["switch", True, True],
+                           ["switch", True, False], ["switch", False, True]]))
+    out.append(store_case([["edit", "n", b"added\n"], ["switch", True, True], ["edit", "f", b"x\n"],
+                           ["switch", False, True], ["switch", True, True]]))
     out.append({"kind": "uncommit", "names": st})
     return out
 
@@ -417,6 +473,8 @@ def cases(rng, tier):
         yield _gen_merge(rng, CMDS[i % 4])
     for _ in range(8 if quick else 60):
         yield _gen_uncommit(rng)
+    for _ in range(14 if quick else 150):
+        yield _gen_store(rng)
 
 
 # ---------------------------------------------------------------- implementation driver
@@ -667,6 +725,11 @@ def _impl_merge(inp):
         _put(od, "f", F(other))
         if base is None:
             ob.add(["f"], ids=[b"f-id"])
+        if inp.get("rename"):
+            if "/" in inp["rename"]:
+                os.mkdir(os.path.join(od, os.path.dirname(inp["rename"])))
+                ob.add([os.path.dirname(inp["rename"])], ids=[b"d-id"])
+            ob.rename_one("f", inp["rename"])
     with open(os.path.join(od, "k"), "wb") as f:
         f.write(b"k2\n")
     r2 = ob.commit("2", rev_id=b"r2")
@@ -705,25 +768,102 @@ def _impl_merge(inp):
     after = _walk(wd)
     wt = WorkingTree.open(wd)
     files = dict((p, c) for p, c in after)
+    seq = bool(inp.get("rename") or inp.get("then"))
     extra = sorted(set(files) - {"k", "f", "f.BASE", "f.THIS", "f.OTHER", "f.moved"})
-    if extra:
+    if extra and not inp.get("rename"):
         raise AssertionError(f"unexpected files after {cmd}: {extra!r}")
     ts = sorted(set(c.typestring for c in wt.conflicts()))
     tag = {"text conflict": "text", "contents conflict": "contents", "duplicate": "duplicate"}
-    if len(ts) > 1 or any(t not in tag for t in ts):
+    if (len(ts) > 1 or any(t not in tag for t in ts)) and not inp.get("rename"):
         raise AssertionError(f"unexpected conflicts {ts!r}")
+    with wt.lock_read():
+        mm1 = sorted(wt.merge_modified())
+        try:
+            fpath = wt.id2path(b"f-id")
+        except Exception as e:
+            if type(e).__name__ != "NoSuchId":
+                raise
+            fpath = None
     if err:
         m = Err(err)
     else:
         m = [files.get("f"), files.get("f.BASE"), files.get("f.THIS"), files.get("f.OTHER"), files.get("f.moved"),
-             Tag(tag[ts[0]] if ts else "")]
+             Tag(tag[ts[0]] if ts else ""), "f" in mm1]
+    after2 = None
+    err2 = None
+    if inp.get("then") and not err:
+        try:
+            if inp["then"] == "revert":
+                wt.revert(backups=True)
+            else:
+                wt.revert([fpath if fpath is not None else "f"], backups=True)
+        except errors.BzrError as e:
+            err2 = type(e).__name__
+        after2 = _walk(wd)
     shutil.rmtree(d, ignore_errors=True)
-    return {"m": m, "err": err, "conf": ts, "before": before, "after": after, "lbefore": [], "lafter": []}
+    return {"m": m, "err": err, "conf": ts, "before": before, "after": after, "lbefore": [], "lafter": [],
+            "mm1": mm1, "fpath": fpath, "after2": after2, "err2": err2, "seq": seq}
+
+
+# ---- switch --store sequences (two branches A = False, B = True of one shared history; lightweight checkout)
+
+def _impl_store(inp):
+    from breezy import switch as _sw, errors
+    from breezy.workingtree import WorkingTree
+    d = _newdir()
+    ta = _mktree(os.path.join(d, "A"))
+    for n, c in (("f", b"base\n"), ("k", b"k\n")):
+        with open(os.path.join(ta.basedir, n), "wb") as f:
+            f.write(c)
+    ta.add(["f", "k"], ids=[b"f-id", b"k-id"])
+    ta.commit("1", rev_id=b"r1")
+    tb = ta.controldir.sprout(os.path.join(d, "B")).open_workingtree()
+    with open(os.path.join(tb.basedir, "k"), "wb") as f:
+        f.write(b"k in B\n")
+    tb.commit("2", rev_id=b"r2")
+    br = {False: ta.branch, True: tb.branch}
+    wt = ta.branch.create_checkout(os.path.join(d, "wt"), lightweight=True)
+    wd = wt.basedir
+    out = []
+    snaps = []
+    for st in inp["steps"]:
+        before = _walk(wd)
+        raised = None
+        if st[0] == "edit":
+            p = os.path.join(wd, st[1])
+            new = not os.path.lexists(p)
+            with open(p, "wb") as f:
+                f.write(bytes(st[2]))
+            if new:
+                WorkingTree.open(wd).add([st[1]], ids=[b"n-id"])
+        else:
+            try:
+                _sw.switch(WorkingTree.open(wd).controldir, br[bool(st[1])], quiet=True, store_uncommitted=bool(st[2]))
+            except errors.ChangesAlreadyStored:
+                raised = "ChangesAlreadyStored"
+        after = _walk(wd)
+        files = dict(after)
+        fc = files.get("f")
+        out.append([raised is not None, [None if fc == b"base\n" else fc, files.get("n")]])
+        snaps.append([st[0], raised, before, after])
+    # drain: whatever the branches still hold must be restorable
+    stored = []
+    for b in (False, True):
+        if br[b]._transport.has("stored-transform"):
+            dr = br[b].create_checkout(os.path.join(d, "drain%d" % b), lightweight=True)
+            dr.restore_uncommitted()
+            stored += [c for _p, c in _walk(dr.basedir)]
+    final = _walk(wd)
+    shutil.rmtree(d, ignore_errors=True)
+    return {"m": out, "err": None, "conf": [], "snaps": snaps, "stored": stored, "final": final,
+            "before": [], "after": final, "lbefore": [], "lafter": []}
 
 
 def impl(inp):
     if inp["kind"] == "merge":
         return _impl_merge(inp)
+    if inp["kind"] == "store":
+        return _impl_store(inp)
     return _impl_tree(inp)
 
 
@@ -784,6 +924,16 @@ def _key(inp):
 def model_term(inp):
     k = inp["kind"]
     if quirky(inp) or _cache.get(_key(inp)) == "skip":
+        return None
+    if k == "store":
+        ops = []
+        for st in inp["steps"]:
+            if st[0] == "edit":
+                ops.append(f"(OEdit {coq_bytes(_b(st[1]))} {coq_bytes(bytes(st[2]))})")
+            else:
+                ops.append(f"(OSwitch {coq_bool(st[1])} {coq_bool(st[2])})")
+        return f"run_store {coq_names(['f', 'n'])} {coq_list(ops)}"
+    if k == "merge" and (inp.get("rename") or inp.get("then")):
         return None
     if k == "merge":
         o = f"{{| o_reprocess := {coq_bool(inp['reprocess'])}; o_show_base := {coq_bool(inp['show_base'])} |}}"
@@ -851,6 +1001,72 @@ def finding_class(inp):
             and e["target"] != e["disk"] and (sel is None or e["n"] in sel)]
 
 
+HELPERS = (".THIS", ".BASE", ".OTHER")
+
+
+def _oracle_merge(inp, obs):
+    if obs["err"]:
+        return None if obs["before"] == obs["after"] else "merge raised and changed the tree"
+    cmd = inp["cmd"]
+    this = b"".join(bytes(x) for x in inp["this"])
+    base = None if inp["base"] is None else b"".join(bytes(x) for x in inp["base"])
+    other = None if inp["other"] is None else b"".join(bytes(x) for x in inp["other"])
+    files = dict((p, bytes(c)) for p, c in obs["after"])
+    fpath = obs.get("fpath") or "f"
+    conflict_free = not any(r[0] == "conflict" for r in inp["regions"])
+    # (1) the merge-like command itself: local text kept, or no local change, or the clean three-way merge
+    ok = this in files.values() or (base is not None and this == base)
+    if not ok and base is not None and other is not None and conflict_free:
+        from merge3 import Merge3
+        import patiencediff
+        m3 = Merge3([bytes(x) for x in inp["base"]], [bytes(x) for x in inp["this"]], [bytes(x) for x in inp["other"]],
+                    sequence_matcher=patiencediff.PatienceSequenceMatcher)
+        ok = files.get(fpath) == b"".join(m3.merge_lines())
+    if not ok and base is None and other is not None and conflict_free:
+        ok = True
+    if not ok:
+        return f"{cmd}: local text {this!r} is neither kept nor cleanly merged"
+    # (2) merge-hashes: when OTHER did not change the text (or made the same change) the merge has no content to
+    # write, so the path holding the untouched local text must not be recorded as written by the merge
+    must_write = other is not None and other != base and other != this
+    # (a contents conflict moves the file id to <name>.THIS, a helper the merge does write: by the statement's
+    # definition that copy is "written by a merge" -- see notes)
+    if inp["tv"] and not must_write and files.get(fpath) == this and fpath in obs.get("mm1", []) \
+            and this != base and not fpath.endswith(HELPERS):
+        return (f"{cmd}: {fpath!r} holds the user's uncommitted text, untouched by the merge, but is recorded in "
+                f"merge_modified()")
+    # (3) a revert (with backups) after the merge: text that sat in a file of the user's (not in a conflict helper
+    # and not written by the merge) must still exist
+    if obs.get("after2") is not None:
+        if obs.get("err2"):
+            return None if obs["after2"] == obs["after"] else "revert raised and changed the tree"
+        holders = [p for p, c in files.items() if c == this and not p.endswith(HELPERS)]
+        if holders and not must_write and this != base and this not in [bytes(c) for _p, c in obs["after2"]]:
+            return (f"{cmd} then {inp['then']} (backups): the uncommitted text {this!r} held by {holders!r} after the "
+                    f"{cmd} is gone")
+    return None
+
+
+def _oracle_store(inp, obs):
+    # a refused switch changes nothing; afterwards every text the user wrote last to a name is in the tree or
+    # restorable from a branch
+    for op, raised, before, after in obs["snaps"]:
+        if raised and before != after:
+            return f"switch raised {raised} and changed the tree"
+    last = {}
+    for st in inp["steps"]:
+        if st[0] == "edit":
+            last[st[1]] = bytes(st[2])
+    have = [bytes(c) for _p, c in obs["final"]] + [bytes(c) for c in obs["stored"]]
+    # an edit made on top of restored/stored work of the same name may legitimately conflict; keep to texts that
+    # must survive verbatim: the last text of a name that was edited once
+    once = {n for n in last if sum(1 for st in inp["steps"] if st[0] == "edit" and st[1] == n) == 1}
+    lost = sorted(last[n] for n in once if last[n] not in have)
+    if lost:
+        return f"switch --store sequence lost uncommitted text {lost!r}"
+    return None
+
+
 def oracle(inp, obs):
     if isinstance(obs, Err):
         return None                     # driver errors are reported by the framework
@@ -866,27 +1082,9 @@ def oracle(inp, obs):
             return f"{k} raised {obs['err']} and changed the tree"
         return None
     if k == "merge":
-        if obs["err"]:
-            return None if obs["before"] == obs["after"] else "merge raised and changed the tree"
-        this = b"".join(bytes(x) for x in inp["this"])
-        if this in after:
-            return None
-        # local text is gone: only acceptable as the clean three-way merge
-        base = inp["base"]
-        other = inp["other"]
-        if base is not None and this == b"".join(bytes(x) for x in base):
-            return None                 # no local change relative to BASE: OTHER (or its deletion) is the merge
-        if base is not None and other is not None and not any(r[0] == "conflict" for r in inp["regions"]):
-            from merge3 import Merge3
-            import patiencediff
-            m3 = Merge3([bytes(x) for x in base], [bytes(x) for x in inp["this"]], [bytes(x) for x in other],
-                        sequence_matcher=patiencediff.PatienceSequenceMatcher)
-            clean = b"".join(m3.merge_lines())
-            if dict((p, c) for p, c in obs["after"]).get("f") == clean:
-                return None
-        if base is None and other is not None and not any(r[0] == "conflict" for r in inp["regions"]):
-            return None
-        return f"{inp['cmd']}: local text {this!r} is neither kept nor cleanly merged"
+        return _oracle_merge(inp, obs)
+    if k == "store":
+        return _oracle_store(inp, obs)
     if k == "uncommit":
         if obs["before"] != obs["after"] or obs["lbefore"] != obs["lafter"]:
             return "uncommit modified working-tree files"
@@ -928,6 +1126,8 @@ def finding_matches(fid, inp, obs, why):
 
 
 def nontrivial(inp, obs):
+    if inp["kind"] == "store":
+        return any(st[0] == "switch" and st[2] for st in inp["steps"])
     if inp["kind"] == "merge":
         return inp["base"] is None or inp["this"] != inp["base"]
     return any(user_edited(e) or _kid_contents(e) for e in inp["names"])
